@@ -80,7 +80,7 @@ class Interp2(Interp):
             return self.select_concrete(list(o), i)
         if isinstance(o, STup):
             pos = self.norm_index(self.int_term(i), z3.Length(o.t))
-            return self.kind_wrap(o.ek, o.t[pos])
+            return self.kind_wrap(o.ek, self.mk_nth(o.t, self.resolve_ite(pos)))
         if isinstance(o, (SymObj,)):
             gi = self.find_class_attr(o.cls, '__getitem__')
             if isinstance(gi, types.FunctionType):
@@ -166,7 +166,49 @@ class Interp2(Interp):
         # clamp stop to ln
         stop = z3.If(stop > ln, ln, stop)
         length = z3.If(stop > start, stop - start, z3.IntVal(0))
-        return self.rw(start), self.rw(length)
+        return self.resolve_ite(self.rw(start)), self.resolve_ite(self.rw(length))
+
+    def resolve_ite(self, t, depth=0):
+        """Replace top-level if-then-else by the branch the path condition selects."""
+        if depth > 6 or not z3.is_app(t):
+            return t
+        k = t.decl().kind()
+        if k == z3.Z3_OP_ITE:
+            c = t.arg(0)
+            if self.entails(c, 800):
+                return self.resolve_ite(self.rw(t.arg(1)), depth + 1)
+            if self.entails(z3.Not(c), 800):
+                return self.resolve_ite(self.rw(t.arg(2)), depth + 1)
+            return t
+        if k in (z3.Z3_OP_ADD, z3.Z3_OP_SUB, z3.Z3_OP_MUL) and t.num_args() <= 4:
+            ch = [self.resolve_ite(c, depth + 1) for c in t.children()]
+            if any(a is not b for a, b in zip(ch, t.children())):
+                return self.rw(t.decl()(*ch))
+        return t
+
+    def mk_extract(self, t, start, length):
+        """Extract with slice-of-slice normalisation:
+        Extract(Extract(s, o, l), a, b) = Extract(s, o + a, b) when [a, a+b) lies
+        inside the inner slice (guaranteed by the clamping of python slices)."""
+        t = self.rw(t)
+        if z3.is_app(t) and t.decl().kind() == z3.Z3_OP_SEQ_EXTRACT:
+            base, o, l = t.arg(0), t.arg(1), t.arg(2)
+            if self.entails(z3.And(o >= 0, start >= 0, length >= 0, start + length <= l,
+                                   o + l <= z3.Length(base)), 1000):
+                return self.rw(z3.Extract(base, self.rw(o + start), length))
+        lc = self.unique_const(length)
+        sc = self.unique_const(start)
+        if sc == 0 and lc is None and self.entails(length == z3.Length(t), 800):
+            return t
+        return self.rw(z3.Extract(t, start, length))
+
+    def mk_nth(self, t, pos):
+        t = self.rw(t)
+        if z3.is_app(t) and t.decl().kind() == z3.Z3_OP_SEQ_EXTRACT:
+            base, o, l = t.arg(0), t.arg(1), t.arg(2)
+            if self.entails(z3.And(o >= 0, pos >= 0, pos < l, o + l <= z3.Length(base)), 1000):
+                return self.rw(base[self.rw(o + pos)])
+        return t[pos]
 
     def getslice(self, o, lo, hi, step):
         if step is not None:
@@ -186,9 +228,9 @@ class Interp2(Interp):
         if isinstance(o, (bytes, str, SSeq)):
             t = self.seq_term(o)
             start, length = self.slice_bounds(lo, hi, z3.Length(t))
-            r = z3.Extract(t, start, length)
+            r = self.mk_extract(t, start, length)
             cls = str if self.seq_cls(o) is str or issubclass(self.seq_cls(o), str) else bytes
-            return self.norm_seq_value(self.rw(r), cls)
+            return self.norm_seq_value(r, cls)
         if isinstance(o, Ref):
             c = self.cell(o)
             if isinstance(c, BACell):
@@ -208,7 +250,7 @@ class Interp2(Interp):
             o = STup(self.tuple_seq_term(o, ek), ek)
         if isinstance(o, STup):
             start, length = self.slice_bounds(lo, hi, z3.Length(o.t))
-            return STup(self.rw(z3.Extract(o.t, start, length)), o.ek)
+            return STup(self.mk_extract(o.t, start, length), o.ek)
         raise OutOfReach('slice of %r' % (o,))
 
     def reverse_value(self, o):
